@@ -167,7 +167,8 @@ func runC08(c *Ctx) {
 		got := fb.reach(cs.Block())
 		want := bAnd{[]BExpr{lockOK, bNot{markerExists}, postOK, is200}}
 		ok, why, _ := implies(got, want)
-		okArgs := calleeName(cs.Common()) == "os.WriteFile" && describe(a[0]) == nd && a[1] == ssa.Value(fn.Params[2])
+		// the bytes written are the bytes that were posted: the buf parameter (by its reference name)
+		okArgs := calleeName(cs.Common()) == "os.WriteFile" && describe(a[0]) == nd && describe(a[1]) == "param:buf"
 		r.Check("C08.disposal", "uploadReportContents/marker written only on 200 with the posted bytes", m.Pos(cs.Pos()), ok && okArgs,
 			"the uploaded marker must be written only after a 200 answer and must hold the bytes that were posted; "+why+" args: "+describe(a[0])+", "+describe(a[1]))
 	}
